@@ -26,7 +26,8 @@ LEVEL_TEXT = ("held on N generated runs: period in {0.1,0.2,1,2.5,60}s, align_to
               "virtual and exact; catch-up is decided as bounded progress.")
 LEVEL_NOTE = ("virtual clock (async_solipsism + time_machine); timer lateness is produced by slow sinks (the only source "
               "of lateness inside a cooperative loop); tick numbering uses the hooked _window_end only to place series "
-              "additions, verdicts use sink-observed timestamps")
+              "additions, verdicts use sink-observed timestamps"
+              ' Build phase: periods up to 1.5 days, alignment points centuries back, a clock that moves on between readings, series ending / beginning with bursts, emission never before the timestamp; actor and MovingWindow tiers.')
 RULE = ("seeded configurations x latency scripts x addition scripts; distinct = canonical case JSON; non-trivial = >=8 "
         "ticks observed and (a latency >= 1 period or a series added while running or a non-aligned creation phase)")
 REQUIRED_BUCKETS = ["first-samples-as-a-burst-just-before-a-tick", "alignment-point-centuries-back", "period-of-18-hours-or-more", "clock-moves-on-between-readings-while-the-resampler-is-constructed",
